@@ -204,6 +204,10 @@ def _reach_sessions(ctx):
     for sizes in ([[3, 4], [5, 3], [4, 5, 4]] * (3 if ctx.thorough else 1)):
         ps = [ser.pos_str(rng.choice(td.start_positions(rng, n, 3, custom_prob=0.3))) for n in sizes]
         out.append({"positions": ps, "seed": rng.randrange(1 << 30), "evaluator": "uniform-kept", "budget": rng.choice([12, 30])})
+    # the process runs with DEBUG logging switched on (a developer's session, a CI job with -v)
+    for sizes in ([[3, 5], [4, 6]] * (2 if ctx.thorough else 1)):
+        ps = [ser.pos_str(rng.choice(td.start_positions(rng, n, 3, custom_prob=0.3))) for n in sizes]
+        out.append({"positions": ps, "seed": rng.randrange(1 << 30), "budget": 6, "debug_logging": True})
     # searches that end on the clock (time_limit) instead of a visit count: wherever the deadline
     # falls, every node the search has expanded carries every legal continuation
     for sizes, tl in ([([5, 6, 4], 0.03), ([6, 6], 0.015), ([4, 5, 6], 0.05), ([3, 6], 0.008)] * (3 if ctx.thorough else 1)):
@@ -236,7 +240,26 @@ def _reach_run(ctx, sess):
     tl = sess.get("time_limit", 0)
     engine = mcts.MCTS(mcts.Config(time_limit=tl, simulation_limit=0 if tl else sess.get("budget", 1)), rec)
     seen, lines = [], []
-    with rec:
+    import contextlib
+    import io
+    import logging
+
+    @contextlib.contextmanager
+    def _logging_at_debug(on):
+        if not on:
+            yield
+            return
+        root = logging.getLogger()
+        old_level, h = root.level, logging.StreamHandler(io.StringIO())
+        root.addHandler(h)
+        root.setLevel(logging.DEBUG)
+        try:
+            yield
+        finally:
+            root.setLevel(old_level)
+            root.removeHandler(h)
+
+    with rec, _logging_at_debug(sess.get("debug_logging")):
         for ps in sess["positions"]:
             pos = ser.parse_pos(ps.split(" "))
             T = _impl_table(pos.size) or []
